@@ -494,7 +494,11 @@ impl DomSim {
                     6 => ("Count".into(), ValSpec::I32(r.below(100) as i32)),
                     7 => ("Text".into(), ValSpec::Str(spec::stringv(r))),
                     _ => {
-                        let ty = *r.pick(&["Vector3", "CFrame", "Float32", "Color3", "Tags", "BinaryString", "SharedString", "NumberSequence"]);
+                        // every value type except the ones with their own ValSpec
+                        let mut ty = *r.pick(spec::ALL_TYPES);
+                        if ty == "Ref" || ty == "UniqueId" {
+                            ty = "Attributes";
+                        }
                         (format!("P{}", ty), ValSpec::G { ty: ty.into(), s: r.below(1 << 30) })
                     }
                 };
